@@ -63,8 +63,10 @@ def Deriv.hld (D : Diff α) (slogdet : List (List α) → α × α) (f : List α
 The differentiated function then returns `k` values per row.  `gradient` / `hessian` reshape with
 `shape[::2]` to `(n, k, d)` / `(n, k, d, d)`; `hessian_log_determinant` reshapes the row Hessian to one
 `(d, d)` block per output column (`reshape((-1, d, d))`), takes `slogdet` of every block and returns
-`(n, k)` pairs — except that a single block is returned unbatched (`if hess.shape[0] == 1: sign[0]`),
-so that scalar outputs AND one-column outputs give `(n,)`. -/
+`(n, k)` pairs — for every `k ≥ 0`, one column included: `(n, 1)`, like value `(n, 1)`, gradient
+`(n, 1, d)` and Hessian `(n, 1, d, d)`.  Only a scalar output (1-D `weights`; the raw Hessian has no
+column axis, `len(hess.shape) <= 5`) is returned unbatched, `(n,)`.  (Before the repair of finding
+H3-C3 the test was `hess.shape[0] == 1`, which also unbatched a single column.) -/
 
 /-- The value(s) the call operator returns per row: a scalar (1-D `weights`) or `k` columns. -/
 inductive Outputs (α : Type) where
@@ -89,12 +91,12 @@ def Deriv.hessianCols (D : Diff α) (fs : List (List α → α)) (X : List (List
     List (List (List (List α))) :=
   X.map fun x => fs.map fun f => Deriv.hessRow D f x
 
-/-- One row of `hessian_log_determinant` as patched: `reshape((-1, d, d))`, `slogdet` per block, a
-    single block returned unbatched. -/
+/-- One row of `hessian_log_determinant` as patched: `reshape((-1, d, d))`, `slogdet` per block; the
+    block of a scalar output is returned unbatched, the blocks of a 2-D output keep the column axis. -/
 def Deriv.hldRow (D : Diff α) (slogdet : List (List α) → α × α) (o : Outputs α) (x : List α) : HldRow α :=
-  match o.funs with
-  | [f] => .single (slogdet (Deriv.hessRow D f x))
-  | fs => .perColumn (fs.map fun f => slogdet (Deriv.hessRow D f x))
+  match o with
+  | .scalar f => .single (slogdet (Deriv.hessRow D f x))
+  | .columns fs => .perColumn (fs.map fun f => slogdet (Deriv.hessRow D f x))
 
 /-- `derivatives.hessian_log_determinant(function, x)` for any output form. -/
 def Deriv.hldOut (D : Diff α) (slogdet : List (List α) → α × α) (o : Outputs α) (X : List (List α)) :
